@@ -8,7 +8,7 @@ for pid in sys.argv[1:]:
     if not os.path.exists(p):
         print('no fragment for', pid); continue
     k = json.load(open(p))
-    d['findings'] = [f for f in d['findings'] if f['property'] != pid] + k.get('findings', [])
+    d['findings'] = ([f for f in d['findings'] if f['property'] != pid] if k.get('replace_findings', True) and k.get('findings') is not None and (k.get('findings') or k.get('replace_findings_explicit')) else d['findings']) + k.get('findings', [])
     have = {(f['property'], f['commit']) for f in d['fixed']}
     for f in k.get('fixed', []):
         if (f['property'], f['commit']) not in have:
